@@ -91,7 +91,7 @@ package failsafe
 // ---------------------------------------------------------------------------------------------
 // C17 -- statistics
 //@ func newExecution
-//@   ensures [C17.new] fresh(result) && execWellFormed2(result, ctx) && result.attempts.v == 1 && result.retries.v == 0 && result.hedges.v == 0 && result.executions.v == 0 && !result.isHedge && result.cancelFunc == nil && cellof(result.canceledResult, *common.PolicyResult) == nil && result.lastError == nil
+//@   ensures [C17.new] fresh(result) && execWellFormed2(result, ctx) && !held(result.mtx) && result.attempts.v == 1 && result.retries.v == 0 && result.hedges.v == 0 && result.executions.v == 0 && !result.isHedge && result.cancelFunc == nil && cellof(result.canceledResult, *common.PolicyResult) == nil && result.lastError == nil
 //@   modifies nothing
 //@ macro execWellFormed2(e, ctx) = e != nil && e.mtx != nil && e.attempts != nil && e.retries != nil && e.hedges != nil && e.executions != nil && e.canceledResult != nil && e.ctx == ctx && e.attempts != e.retries && e.attempts != e.hedges && e.attempts != e.executions && e.retries != e.hedges && e.retries != e.executions && e.hedges != e.executions
 
@@ -311,3 +311,110 @@ package failsafe
 //@   requires e != nil
 //@   ensures [C16.executor.onfailure_registered] e.onFailure == listener && e.onDone == old(e.onDone) && e.onSuccess == old(e.onSuccess) && result == asiface(e)
 //@   modifies e.onFailure
+
+// ---------------------------------------------------------------------------------------------
+// The public entry points: each wraps the user function in its own adapter closure, says whether the function wants the
+// execution, and returns what the sync / async core returns (C01 entry; C15 sync/async agreement).
+//@ func (*executor).Run$1
+//@   requires fn != nil
+//@   ensures [C01.entry.adapter_run+C15.entry.adapter_run] ncalls(fn) == 1 && result_1 == reti(fn, 1)
+//@   havoc
+//@   modifies calls(fn)
+//@ func (*executor).RunWithExecution$1
+//@   requires fn != nil
+//@   ensures [C01.entry.adapter_runwithexecution+C15.entry.adapter_runwithexecution] ncalls(fn) == 1 && arg(fn, 1, 0) == exec && result_1 == reti(fn, 1)
+//@   havoc
+//@   modifies calls(fn)
+//@ func (*executor).Get$1
+//@   requires fn != nil
+//@   ensures [C01.entry.adapter_get+C15.entry.adapter_get] ncalls(fn) == 1 && result_0 == ret(fn, 1, 0) && result_1 == reti(fn, 1, 1)
+//@   havoc
+//@   modifies calls(fn)
+//@ func (*executor).GetWithExecution$1
+//@   requires fn != nil
+//@   ensures [C01.entry.adapter_getwithexecution+C15.entry.adapter_getwithexecution] ncalls(fn) == 1 && arg(fn, 1, 0) == exec && result_0 == ret(fn, 1, 0) && result_1 == reti(fn, 1, 1)
+//@   havoc
+//@   modifies calls(fn)
+//@ func (*executor).RunAsync$1
+//@   requires fn != nil
+//@   ensures [C01.entry.adapter_runasync+C15.entry.adapter_runasync] ncalls(fn) == 1 && result_1 == reti(fn, 1)
+//@   havoc
+//@   modifies calls(fn)
+//@ func (*executor).RunWithExecutionAsync$1
+//@   requires fn != nil
+//@   ensures [C01.entry.adapter_runwithexecutionasync+C15.entry.adapter_runwithexecutionasync] ncalls(fn) == 1 && arg(fn, 1, 0) == exec && result_1 == reti(fn, 1)
+//@   havoc
+//@   modifies calls(fn)
+//@ func (*executor).GetAsync$1
+//@   requires fn != nil
+//@   ensures [C01.entry.adapter_getasync+C15.entry.adapter_getasync] ncalls(fn) == 1 && result_0 == ret(fn, 1, 0) && result_1 == reti(fn, 1, 1)
+//@   havoc
+//@   modifies calls(fn)
+//@ func (*executor).GetWithExecutionAsync$1
+//@   requires fn != nil
+//@   ensures [C01.entry.adapter_getwithexecutionasync+C15.entry.adapter_getwithexecutionasync] ncalls(fn) == 1 && arg(fn, 1, 0) == exec && result_0 == ret(fn, 1, 0) && result_1 == reti(fn, 1, 1)
+//@   havoc
+//@   modifies calls(fn)
+//@ func (*executor).executeSync
+//@   requires e != nil && fn != nil && e.ctx != nil && (forall j int :: 0 <= j && j < len(e.policies) ==> e.policies[j] != nil)
+//@   oldlet nx := 0
+//@   oncall (*executor).execute: nx := nx + 1; er := callresult; xfn := callarg_1; xwith := callarg_3
+//@   ensures [C01.entry.sync_core+C15.entry.sync_core] nx == 1 && xfn == fn && xwith == withExec && result_0 == er.Result && result_1 == er.Error
+//@   havoc
+//@   modifies *
+//@ func (*executor).Run
+//@   requires e != nil && fn != nil && e.ctx != nil && (forall j int :: 0 <= j && j < len(e.policies) ==> e.policies[j] != nil)
+//@   oldlet nc := 0
+//@   oncall (*executor).executeSync: nc := nc + 1; cfn := callarg_1; cwith := callarg_2; r0 := callresult_0; r1 := callresult_1
+//@   ensures [C01.entry.run+C15.entry.run] nc == 1 && cwith == false && clofn(cfn) == fnid("(*executor).Run$1") && result == r1
+//@   havoc
+//@   modifies *
+//@ func (*executor).RunWithExecution
+//@   requires e != nil && fn != nil && e.ctx != nil && (forall j int :: 0 <= j && j < len(e.policies) ==> e.policies[j] != nil)
+//@   oldlet nc := 0
+//@   oncall (*executor).executeSync: nc := nc + 1; cfn := callarg_1; cwith := callarg_2; r0 := callresult_0; r1 := callresult_1
+//@   ensures [C01.entry.runwithexecution+C15.entry.runwithexecution] nc == 1 && cwith == true && clofn(cfn) == fnid("(*executor).RunWithExecution$1") && result == r1
+//@   havoc
+//@   modifies *
+//@ func (*executor).Get
+//@   requires e != nil && fn != nil && e.ctx != nil && (forall j int :: 0 <= j && j < len(e.policies) ==> e.policies[j] != nil)
+//@   oldlet nc := 0
+//@   oncall (*executor).executeSync: nc := nc + 1; cfn := callarg_1; cwith := callarg_2; r0 := callresult_0; r1 := callresult_1
+//@   ensures [C01.entry.get+C15.entry.get] nc == 1 && cwith == false && clofn(cfn) == fnid("(*executor).Get$1") && result_0 == r0 && result_1 == r1
+//@   havoc
+//@   modifies *
+//@ func (*executor).GetWithExecution
+//@   requires e != nil && fn != nil && e.ctx != nil && (forall j int :: 0 <= j && j < len(e.policies) ==> e.policies[j] != nil)
+//@   oldlet nc := 0
+//@   oncall (*executor).executeSync: nc := nc + 1; cfn := callarg_1; cwith := callarg_2; r0 := callresult_0; r1 := callresult_1
+//@   ensures [C01.entry.getwithexecution+C15.entry.getwithexecution] nc == 1 && cwith == true && clofn(cfn) == fnid("(*executor).GetWithExecution$1") && result_0 == r0 && result_1 == r1
+//@   havoc
+//@   modifies *
+//@ func (*executor).RunAsync
+//@   requires e != nil && fn != nil && e.ctx != nil && (forall j int :: 0 <= j && j < len(e.policies) ==> e.policies[j] != nil)
+//@   oldlet nc := 0
+//@   oncall (*executor).executeAsync: nc := nc + 1; cfn := callarg_1; cwith := callarg_2; r0 := callresult_0
+//@   ensures [C01.entry.runasync+C15.entry.runasync] nc == 1 && cwith == false && clofn(cfn) == fnid("(*executor).RunAsync$1") && result == r0
+//@   havoc
+//@   modifies *
+//@ func (*executor).RunWithExecutionAsync
+//@   requires e != nil && fn != nil && e.ctx != nil && (forall j int :: 0 <= j && j < len(e.policies) ==> e.policies[j] != nil)
+//@   oldlet nc := 0
+//@   oncall (*executor).executeAsync: nc := nc + 1; cfn := callarg_1; cwith := callarg_2; r0 := callresult_0
+//@   ensures [C01.entry.runwithexecutionasync+C15.entry.runwithexecutionasync] nc == 1 && cwith == true && clofn(cfn) == fnid("(*executor).RunWithExecutionAsync$1") && result == r0
+//@   havoc
+//@   modifies *
+//@ func (*executor).GetAsync
+//@   requires e != nil && fn != nil && e.ctx != nil && (forall j int :: 0 <= j && j < len(e.policies) ==> e.policies[j] != nil)
+//@   oldlet nc := 0
+//@   oncall (*executor).executeAsync: nc := nc + 1; cfn := callarg_1; cwith := callarg_2; r0 := callresult_0
+//@   ensures [C01.entry.getasync+C15.entry.getasync] nc == 1 && cwith == false && clofn(cfn) == fnid("(*executor).GetAsync$1") && result == r0
+//@   havoc
+//@   modifies *
+//@ func (*executor).GetWithExecutionAsync
+//@   requires e != nil && fn != nil && e.ctx != nil && (forall j int :: 0 <= j && j < len(e.policies) ==> e.policies[j] != nil)
+//@   oldlet nc := 0
+//@   oncall (*executor).executeAsync: nc := nc + 1; cfn := callarg_1; cwith := callarg_2; r0 := callresult_0
+//@   ensures [C01.entry.getwithexecutionasync+C15.entry.getwithexecutionasync] nc == 1 && cwith == true && clofn(cfn) == fnid("(*executor).GetWithExecutionAsync$1") && result == r0
+//@   havoc
+//@   modifies *
